@@ -8,6 +8,7 @@ import (
 	"sort"
 	"strings"
 	"sync"
+	"time"
 
 	"golang.org/x/crypto/ssh"
 	"golang.org/x/crypto/ssh/agent"
@@ -38,7 +39,7 @@ type reqRec struct {
 }
 
 func main() {
-	ev.Main("C02", "exploration", func(r *ev.Run) {
+	ev.MainIsolated("C02", "exploration", 40*time.Minute, func(r *ev.Run) {
 		r.Rule("seeded requests through the real handler (NewHandler from JSON configuration) and gensign.Run with an honest forwarded agent and a recording signer: login name / client user / host / transaction id from a hostile alphabet (quotes, backslashes, NUL, newlines, braces, multi-byte UTF-8, up to 1 KiB), IPv4/IPv6 literals, requested CA key algorithm 0..5 and out of range, validity in {1, 59, 3600, 43200, 2^31, 10 years, default}, identifier maps with 0..5 entries keyed by algorithm name in random case or by decimal number. Each CSR is compared field by field with an oracle built from the inputs; the KeyID is decoded with encoding/json into a map (exact key set and JSON types) and with keyid.Unmarshal; the certified public key must be new (pairwise distinct over the whole run, different from the user's key) and be the public half of the private key this run added to the agent. distinct_nontrivial = distinct requests that produced a CSR and passed every field comparison + distinct refused (algorithm, identifier map) combinations")
 		r.Assume("strings are valid UTF-8", "encoding/json is the independent KeyID decoder")
 		gen.Pool()
